@@ -61,11 +61,12 @@ Proof. exact StateNeededProofs.proto_needed_is_event_needed. Qed.
 
 (* verdict_depends_on_needed_only. Two auth states that answer the lookups of the read-set alike
    give the same verdict. provider_ok (NewAuthEvents accepts the list: state events only) and
-   one_room (AuthEvents.Valid) are the two tests Allowed makes on the provider as a whole. *)
+   valid9 (AuthEvents.Valid: the entries HELD - the last event of every key - are of one room) are
+   the two tests Allowed makes on the provider as a whole. *)
 Theorem verdict_depends_on_needed_only :
   forall sig f e st st',
     (forall ty sk, In (ty, sk) (needed7 e) -> find_auth ty sk st = find_auth ty sk st') ->
-    provider_ok st = provider_ok st' -> one_room f st = one_room f st' ->
+    provider_ok st = provider_ok st' -> valid9 f st = valid9 f st' ->
     allowed9 sig f e st = allowed9 sig f e st'.
 Proof. exact allowed9_depends_on_needed7. Qed.
 
@@ -84,26 +85,42 @@ Proof.
   intros sig f e st st' ND P. apply allowed9_depends_on_needed7.
   - intros ty sk _. apply find_auth_permutation; assumption.
   - apply provider_ok_permutation; exact P.
-  - apply one_room_permutation; exact P.
+  - apply valid9_permutation; assumption.
 Qed.
 
-(* unrelated state added (after or before): state events of the same room filed under keys the
-   check does not read *)
+(* unrelated state added (after or before): state events filed under keys the check does not
+   read, which leave the Valid() test as it was (e.g. events of the same room) *)
 Theorem verdict_ignores_added_state :
   forall sig f e st extra,
     (forall ty sk x, In (ty, sk) (needed7 e) -> In x extra -> matches7 (ty, sk) x = false) ->
     provider_ok extra = true ->
-    one_room f (st ++ extra) = one_room f st ->
+    valid9 f (st ++ extra) = valid9 f st -> valid9 f (extra ++ st) = valid9 f st ->
     allowed9 sig f e (st ++ extra) = allowed9 sig f e st /\
     allowed9 sig f e (extra ++ st) = allowed9 sig f e st.
 Proof.
-  intros sig f e st extra U PO OR. split; apply allowed9_depends_on_needed7.
+  intros sig f e st extra U PO OR OR'. split; apply allowed9_depends_on_needed7.
   - intros ty sk K. apply (find_auth_add_unrelated ty sk st extra). intros x Hx. apply (U ty sk x K Hx).
   - unfold provider_ok in *. rewrite forallb_app, PO, andb_true_r. reflexivity.
   - exact OR.
   - intros ty sk K. apply (find_auth_add_unrelated ty sk st extra). intros x Hx. apply (U ty sk x K Hx).
   - unfold provider_ok in *. rewrite forallb_app, PO. reflexivity.
-  - rewrite <- OR. apply one_room_same_members. intro x. rewrite !in_app_iff. tauto.
+  - exact OR'.
+Qed.
+
+(* ... in particular when everything supplied is of one room *)
+Corollary verdict_ignores_added_state_of_the_room :
+  forall sig f e st extra,
+    (forall ty sk x, In (ty, sk) (needed7 e) -> In x extra -> matches7 (ty, sk) x = false) ->
+    provider_ok extra = true -> one_room f (st ++ extra) = true ->
+    allowed9 sig f e (st ++ extra) = allowed9 sig f e st /\
+    allowed9 sig f e (extra ++ st) = allowed9 sig f e st.
+Proof.
+  intros sig f e st extra U PO OR. apply verdict_ignores_added_state; auto.
+  - rewrite (valid9_of_one_room f (st ++ extra) (st ++ extra) OR (fun x H => H)).
+    symmetry. apply (valid9_of_one_room f (st ++ extra)); [exact OR|]. intros x H. apply in_or_app. left. exact H.
+  - rewrite (valid9_of_one_room f (st ++ extra) (extra ++ st) OR).
+    + symmetry. apply (valid9_of_one_room f (st ++ extra)); [exact OR|]. intros x H. apply in_or_app. left. exact H.
+    + intros x H. apply in_app_or in H. apply in_or_app. tauto.
 Qed.
 
 (* unrelated state removed: any sub-state that keeps the events filed under the read keys *)
@@ -117,8 +134,21 @@ Proof.
   - intros ty sk I. apply find_auth_filter. intros x Hx M. apply (K ty sk x I Hx M).
   - rewrite PO. unfold provider_ok in *. rewrite forallb_forall in *.
     intros x Hx. apply filter_In in Hx as [Hx _]. apply PO. exact Hx.
-  - rewrite OR. apply one_room_spec. rewrite one_room_spec in OR.
-    intros a b Ha Hb. apply filter_In in Ha as [Ha _]. apply filter_In in Hb as [Hb _]. apply OR; assumption.
+  - rewrite (valid9_of_one_room f st st OR (fun x H => H)).
+    apply (valid9_of_one_room f st); [exact OR|]. intros x Hx. apply filter_In in Hx. tauto.
+Qed.
+
+(* the verdict is that of the entries the provider HOLDS after the events were added in this
+   order - the last event of every (type, state_key): an entry that was replaced plays no part,
+   not even through its room (AuthEvents.Valid after repair F59) *)
+Theorem verdict_depends_on_entries_held :
+  forall sig f e st, provider_ok st = true ->
+    allowed9 sig f e st = allowed9 sig f e (held7 st).
+Proof.
+  intros sig f e st PO. apply allowed9_depends_on_needed7.
+  - intros ty sk _. symmetry. apply find_auth_held7.
+  - rewrite PO. symmetry. apply provider_ok_held7.
+  - symmetry. apply valid9_held7.
 Qed.
 
 (* ---------------- the reused checker ---------------- *)
@@ -150,7 +180,7 @@ Qed.
 Theorem checker_reuse_transparent_auth :
   forall sig f (ev_of : N -> json) p0 steps,
     p_wf ev_of p0 -> (forall pe, In pe steps -> p_wf ev_of (fst pe)) ->
-    (forall pe, In pe steps -> one_room f (p_auths (fst pe)) = true) ->
+    (forall pe, In pe steps -> valid9 f (p_auths (fst pe)) = true) ->
     run_checker9 sig f (new_context9 f p0) steps =
     map (fun pe => allowed9 sig f (snd pe) (p_auths (fst pe))) steps.
 Proof. exact run_checker9_is_allowed9. Qed.
@@ -158,7 +188,7 @@ Proof. exact run_checker9_is_allowed9. Qed.
 (* C07's allowed_model is this verdict except on member events whose third_party_invite has an
    empty token (rejected by the repaired code without a lookup) *)
 Theorem allowed9_is_C07_model :
-  forall sig f e st, empty_token_invite e = false ->
+  forall sig f e st, empty_token_invite e = false -> valid9 f st = one_room f st ->
     allowed9 sig f e st = decide_model (abs (sig e) f e st).
 Proof. exact allowed9_is_allowed_model. Qed.
 
@@ -289,7 +319,9 @@ Print Assumptions verdict_depends_on_needed_only.
 Print Assumptions verdict_same_on_every_evaluation.
 Print Assumptions verdict_order_independent.
 Print Assumptions verdict_ignores_added_state.
+Print Assumptions verdict_ignores_added_state_of_the_room.
 Print Assumptions verdict_ignores_removed_state.
+Print Assumptions verdict_depends_on_entries_held.
 Print Assumptions checker_reuse_transparent.
 Print Assumptions checker_reuse_transparent_auth.
 Print Assumptions allowed9_is_C07_model.
